@@ -35,7 +35,17 @@ def check(run):
     if not ok:
         run.violation("broken-correspondence", {"kind": "harness-build"}, "harness/plug does not build against the working tree", {"log": log[-3000:]}, found_input=False)
         return
+    # Props/C02 builds on C19's facts about TODAY's tables: regenerate them from the working tree like C19 does
+    import tables
+    try:
+        tables.gen_a64()
+        tables.gen_rv()
+        tables.gen_x64()
+    except Exception as e:      # noqa
+        run.violation("broken-correspondence", {"kind": "translator"}, f"the instruction tables could not be translated: {e}", found_input=False)
+        return
     proofs_ok = common.standard_proof_step(run, MODULES, allow_bv_decide=False)
+    found_before = len(run.violations) + len(run.known_hit)
     stats = {}
     total = equal = 0
     for (key, arch, xlen, fs) in gas.targets():
@@ -88,6 +98,42 @@ def check(run):
         stats[key] = st
         total += st["instantiations"]
         equal += st["equal"]
+    # aarch64 register lists: the three notations `{v1.T * n}`, `{v1.T, v2.T, …}` and `{v1.T - vn.T}` (incl. wrap-around past v31) name
+    # the same registers and must assemble to the same bytes (the `* n` notation is the one compared with llvm-mc above)
+    import re as _re
+    import forms as _forms
+    rl = _re.compile(r"\{v(\d+)(\.[A-Za-z0-9]+) *\* *([1-4])\}")
+    lreqs, lmeta = [], []
+    for f in _forms.load("aarch64"):
+        if "* " not in f.template and "*" not in f.template:
+            continue
+        for which in ("base", "last"):
+            vals = gas.instantiate(f, which)
+            if vals is None:
+                continue
+            line = f.render(vals)
+            m = rl.search(line)
+            if not m:
+                continue
+            first, el, n = int(m.group(1)), m.group(2), int(m.group(3))
+            regs = [(first + k) % 32 for k in range(n)]
+            comma = "{" + ", ".join(f"v{r}{el}" for r in regs) + "}"
+            dash = "{" + f"v{regs[0]}{el} - v{regs[-1]}{el}" + "}"
+            for alt in (comma, dash):
+                lreqs += ["cl ; .arch aarch64 ; " + line, "cl ; .arch aarch64 ; " + line[:m.start()] + alt + line[m.end():]]
+                lmeta.append((line, line[:m.start()] + alt + line[m.end():]))
+    lans = gas.plug_compile(lreqs) if lreqs else []
+    st_l = {"pairs": len(lmeta), "equal": 0}
+    for k, (a, b) in enumerate(lmeta):
+        ba, _ = gas.plug_bytes(lans[2 * k])
+        bb, _ = gas.plug_bytes(lans[2 * k + 1])
+        if ba is not None and ba == bb:
+            st_l["equal"] += 1
+        elif ba is not None:
+            run.violation("failing-input", {"kind": "register-list-notation", "mnemonic": a.split()[0], "notation": "dash" if " - v" in b else "comma"},
+                          f"aarch64: `{a}` assembles to {gas.hexs(ba)} but the same registers written `{b}` " + (f"assemble to {gas.hexs(bb)}" if bb is not None else "are rejected"),
+                          {"stream": "plug", "input": ["cl ; .arch aarch64 ; " + a, "cl ; .arch aarch64 ; " + b]})
+    stats["aarch64_register_list_notations"] = st_l
     # x86/x64: every table entry instantiated (every register of the class in every slot, fixed memory shapes, boundary immediates),
     # compiled by the plugin, the bytes DISASSEMBLED by llvm-mc and compared operand by operand (lib/x64sweep.py)
     import x64sweep
@@ -113,6 +159,9 @@ def check(run):
     if rep.get("matcher_model_disagreements"):
         run.violation("broken-correspondence", {"kind": "x64-matcher-model"}, f"lib/x64sweep.py's transcription of match_format_string disagrees with the plugin on {len(rep['matcher_model_disagreements'])} lines",
                       {"record": rep["matcher_model_disagreements"][:5]}, found_input=False)
+    if not proofs_ok and hasattr(run, "broken_build"):
+        found = (len(run.violations) + len(run.known_hit)) > found_before
+        run.violation("broken-obligation", {"kind": "lean-build", "first": run.broken_build["first_error"][:200]}, run.broken_build["first_error"], run.broken_build, found_input=found)
     run.coverage["evaluations"] = total
     run.coverage["distinct_nontrivial"] = equal
     run.coverage["rule"] = ("every form of the aarch64 / riscv32 / riscv64 tables x {base, last, spread} and every slot over its whole domain (boundary-directed above "
